@@ -26,6 +26,10 @@ import (
 	"path/filepath"
 	"sort"
 	"strings"
+	"sync"
+	"sync/atomic"
+	"syscall"
+	"time"
 
 	"github.com/glowlabs-org/gca-backend/server"
 
@@ -43,7 +47,7 @@ func main() {
 		Level: "exploration",
 		Pkg:   "./cmd/c06",
 		Rule: "operations: valid new authorization; unsigned/garbage/temp-key/server-key/device-key/foreign-GCA/wrong-prefix signatures; exact duplicate; same content re-signed; conflict differing in exactly one field " +
-			"(PublicKey fresh / another registered device's / a banned device's, Latitude, Longitude, Capacity, Debt, Expiration, Initialization, ProtocolFee); submissions for banned ids; reports of authorized, banned and unknown devices; restarts. " +
+			"(PublicKey fresh / another registered device's / a banned device's, Latitude, Longitude, Capacity, Debt, Expiration, Initialization, ProtocolFee); submissions for banned ids; reports of authorized, banned and unknown devices; restarts; K (2..16) concurrent identical new authorizations and K concurrent different conflicts (aligned at the auth.ready hook, the authorization file temporarily a named pipe so that appends park until all requests are in flight); conflict / new / duplicate authorizations while equipment-authorizations.dat cannot be opened (renamed away for that one request). " +
 			"Non-trivial = an authorization for an id that is already authorized or banned; distinct by (operation, field changed, key relation, signer, situation: target has reports on disk / server was restarted before / an archived week exists).",
 		Assumptions: []string{
 			"rotation and impact jobs are gated (the test-mode fake impact value is derived from latitude+longitude and would be infinite for extreme coordinates)",
@@ -51,6 +55,7 @@ func main() {
 			"an authorization with identical content but a different valid GCA signature may be treated as a duplicate (200, nothing changes) or as a conflict (non-200, id banned, evidence appended): both accepted and counted",
 			"a valid authorization for a new id that carries the key of a banned (no longer registered) device, and one that carries the key of another registered device, may be accepted or refused; in both cases every other device must stay untouched",
 			"reports in this check stay inside the capacity domain of C02 (capacity < 2^64/135 for reporting devices)",
+			"fault model for the persist step: ENOENT on opening equipment-authorizations.dat (no O_CREATE in the server); other I/O errors (EIO, ENOSPC, short writes) are not injected",
 			"HTTP status classes asserted: 200 for a valid new authorization and for an exact duplicate; non-200 for bad signatures, conflicts and banned ids",
 		},
 		Plan:          plan,
@@ -91,9 +96,11 @@ func plan(tier string, seed int64) []run.Batch {
 	if tier == "thorough" {
 		add("seq", 15, 200) // 3000 sequences
 		add("keyreuse", 12, 4)
+		add("conc", 10, 8)
 	} else {
 		add("seq", 4, 16) // 64 sequences
 		add("keyreuse", 4, 2)
+		add("conc", 3, 3)
 	}
 	return bs
 }
@@ -110,7 +117,7 @@ func post(c *ev.Check, outs []*run.Outcome) {
 	}
 	for _, k := range []string{"obs.new_accepted", "obs.duplicate_ok", "obs.ban", "obs.badsig_refused", "obs.banned_id_refused", "obs.report_accepted", "obs.banned_report_ignored",
 		"obs.restart", "obs.restart_with_banned_reports_on_disk", "obs.conflict_with_other_registered_key", "obs.float_roundtrip_special", "check_invariants_calls", "surface.equipment", "surface.sync", "surface.recent", "surface.stats",
-		"surface.archived_week", "keyreuse.probes"} {
+		"surface.archived_week", "keyreuse.probes", "fault.conflict", "fault.new", "fault.duplicate", "obs.fault_then_restart", "obs.fault_retry_bans", "conc.identical_rounds", "conc.conflict_rounds", "conc.fifo_rounds"} {
 		c.Require(k, 1)
 	}
 	for _, f := range fieldNames {
@@ -1138,6 +1145,145 @@ func (w *world) opBannedSubmit() {
 	w.observe(expect{kind: "none", id: d.id, what: fmt.Sprintf("authorization (%s) for banned id %d (status %d)", variant, d.id, st), class: "banned-id-submission"})
 }
 
+// opFault: an authorization arrives while equipment-authorizations.dat cannot be
+// opened (the file is renamed away for the duration of this single request; the
+// server opens it without O_CREATE, so the append fails). Whatever the server
+// answers, it must not end up with an effect that exists in memory only: the
+// state right after the request must be the state a restart rebuilds from disk.
+// Accepted: nothing changed, or changed consistently in memory and on disk.
+func (w *world) opFault(kind string, d *dev, restartAfter, retry bool) {
+	var a refenc.Auth
+	switch kind {
+	case "conflict", "duplicate":
+		if d == nil {
+			d = w.pick(stAuthorized)
+		}
+		if d == nil || d.state != stAuthorized {
+			return
+		}
+		a = d.auth
+		if kind == "conflict" {
+			a.Debt ^= 1 << uint(w.rng.Intn(64))
+			a = a.Signed(w.GCA.Priv)
+		}
+	case "new":
+		k := refenc.GenKey(w.rng)
+		a = w.mkAuth(w.freshID(), k.Pub, true)
+		d = &dev{id: a.ID, key: k, auth: a, state: stNever, slots: map[uint32]*slotM{}, reporting: true}
+	}
+	path := filepath.Join(w.Dir, "equipment-authorizations.dat")
+	away := path + ".away"
+	w.op("FAULT authorization file unavailable during: authorize %s id=%d auth=%x", kind, a.ID, a.Bytes())
+	if err := os.Rename(path, away); err != nil {
+		w.r.Inconc("fault injection: " + err.Error())
+		w.stop = true
+		return
+	}
+	st, ok := w.authorize(a)
+	// put the file back; should the server have created a new one, keep its records behind the old ones
+	if created, err := os.ReadFile(path); err == nil {
+		old, _ := os.ReadFile(away)
+		os.WriteFile(path, append(old, created...), 0644)
+		os.Remove(away)
+		w.r.Count("fault.file_recreated_by_server", 1)
+	} else if err := os.Rename(away, path); err != nil {
+		w.r.Inconc("fault injection (restore): " + err.Error())
+		w.stop = true
+		return
+	}
+	if !ok {
+		return
+	}
+	w.r.Count("fault."+kind, 1)
+	w.r.Nontrivial("fault/" + kind + w.ctx(d))
+	what := fmt.Sprintf("%s authorization for id %d while the authorization file was unavailable (status %d)", kind, a.ID, st)
+	if kind == "duplicate" && st != 200 {
+		w.r.Violationf("exact-duplicate-refused", w.replay(), "%s: an exact duplicate needs no write and must be answered 200", what)
+	}
+	snap1 := w.S.VerifSnapshot(true)
+	var changed []string
+	for _, sec := range drv.DiffSnap(w.before, snap1).Sections {
+		if sec != "recentlist" {
+			changed = append(changed, sec)
+		}
+	}
+	fileNow := w.ReadFile("equipment-authorizations.dat")
+	fileChanged := !bytes.Equal(fileNow, w.file)
+	switch {
+	case len(changed) == 0 && !fileChanged:
+		// refused (or duplicate) without any effect
+		if kind == "new" {
+			w.addDev(d)
+		}
+		if st == 200 && kind != "duplicate" {
+			w.r.Violationf("fault:answered-200-without-effect", w.replay(), "%s: answered 200 although nothing was stored", what)
+		}
+		w.r.Count("fault.no_effect", 1)
+		w.observe(expect{kind: "none", id: a.ID, what: what, class: "fault-" + kind})
+	case fileChanged:
+		// the server managed to persist: the ordinary rules apply
+		w.r.Count("fault.persisted_anyway", 1)
+		switch kind {
+		case "conflict":
+			w.ban(d, a)
+			w.observe(expect{kind: "ban", id: d.id, what: what, class: "fault-" + kind})
+		case "new":
+			d.state = stAuthorized
+			w.file = append(w.file, a.Bytes()...)
+			w.addDev(d)
+			w.observe(expect{kind: "new", id: d.id, what: what, class: "fault-" + kind})
+		default:
+			w.observe(expect{kind: "none", id: a.ID, what: what, class: "fault-" + kind})
+		}
+		return
+	default:
+		// effect in memory, nothing on disk: show what a restart makes of it
+		w.op("restart (to compare the in-memory effect of the faulted request with what the disk holds)")
+		if err := w.Restart(); err != nil {
+			w.r.Violationf("fault:restart-failed-after-faulted-request", w.replay(), "%s changed %v in memory; the server then does not start again: %v", what, changed, err)
+			w.stop = true
+			w.checkpoint()
+			return
+		}
+		snap2 := w.S.VerifSnapshot(true)
+		var lost []string
+		for _, sec := range drv.DiffSnap(snap1, snap2).Sections {
+			if sec != "recentlist" {
+				lost = append(lost, sec)
+			}
+		}
+		_, wasAuth := snap1.Equipment[a.ID]
+		_, isAuth := snap2.Equipment[a.ID]
+		key := "fault:in-memory-effect-not-durable:" + kind
+		w.r.Violationf(key, w.replay(), "%s changed %v in memory while the file kept its %d bytes; after a restart %v differ again (id %d: banned %v -> %v, authorized %v -> %v): the effect of the request was not permanent",
+			what, changed, len(fileNow), lost, a.ID, snap1.Bans[a.ID], snap2.Bans[a.ID], wasAuth, isAuth)
+		w.stop = true
+		w.checkpoint()
+		return
+	}
+	if w.stop {
+		return
+	}
+	if restartAfter {
+		w.opRestart()
+		w.r.Count("obs.fault_then_restart", 1)
+	}
+	if retry && kind == "conflict" && !w.stop && d.state == stAuthorized {
+		// with the file back the same authorization bans durably
+		w.op("authorize conflict (retry after the fault) id=%d auth=%x", d.id, a.Bytes())
+		st2, ok := w.authorize(a)
+		if !ok {
+			return
+		}
+		if st2 == 200 {
+			w.r.Violationf("conflict-answered-200", w.replay(), "the retried conflicting authorization for device %d was answered with 200", d.id)
+		}
+		w.ban(d, a)
+		w.r.Count("obs.fault_retry_bans", 1)
+		w.observe(expect{kind: "ban", id: d.id, what: fmt.Sprintf("retry of the conflicting authorization for device %d after the fault (status %d)", d.id, st2), class: "conflict"})
+	}
+}
+
 // usableSlot returns a slot inside both windows.
 func (w *world) usableSlot() uint32 {
 	lo := int64(w.now) - 432
@@ -1367,6 +1513,8 @@ func runSequence(b run.Batch, r *ev.Result, rng *rand.Rand, n int) bool {
 			}
 		case p < 68:
 			w.opBannedSubmit()
+		case p < 74:
+			w.opFault([]string{"conflict", "conflict", "new", "duplicate"}[rng.Intn(4)], nil, rng.Intn(2) == 0, rng.Intn(2) == 0)
 		case p < 84:
 			w.opReport(stAuthorized)
 		case p < 90:
@@ -1392,7 +1540,7 @@ func runSequence(b run.Batch, r *ev.Result, rng *rand.Rand, n int) bool {
 		}
 		return d
 	}
-	for len(w.sorted(stAuthorized)) < 3 && !w.stop {
+	for len(w.sorted(stAuthorized)) < 4 && !w.stop {
 		w.opNew(true)
 	}
 	for i := 0; i < 6 && !w.stop && withReports() == nil; i++ {
@@ -1408,6 +1556,9 @@ func runSequence(b run.Batch, r *ev.Result, rng *rand.Rand, n int) bool {
 		func() { w.opRestart() },
 		func() { w.opBannedSubmit() },
 		func() { w.opReport(stBanned) },
+		func() { w.opReport(stAuthorized) },
+		func() { w.opFault("conflict", withReports(), n%2 == 0, true) },
+		func() { w.opFault([]string{"new", "duplicate"}[n%2], nil, n%4 == 1, false) },
 		func() { w.opDup() },
 		func() { w.opNew(true) },
 		func() { w.opReport(stAuthorized) },
@@ -1568,6 +1719,255 @@ func runKeyReuse(b run.Batch, r *ev.Result, rng *rand.Rand, n int) bool {
 	return true
 }
 
+// ---------------------------------------------------------------- concurrent submissions
+
+// concBarrier aligns K in-flight authorize requests at the auth.ready hook
+// (after the body is decoded, before the handler touches shared state).
+type concBarrier struct {
+	k    int32
+	n    atomic.Int32
+	ch   chan struct{}
+	once sync.Once
+}
+
+var concArmed atomic.Pointer[concBarrier]
+var concHookOnce sync.Once
+
+func installConcHook() {
+	concHookOnce.Do(func() {
+		server.VerifSetHook("auth.ready", func(*server.GCAServer) {
+			b := concArmed.Load()
+			if b == nil {
+				return
+			}
+			if b.n.Add(1) >= b.k {
+				b.once.Do(func() { close(b.ch) })
+			}
+			select { // the barrier only aligns the requests; releasing early loses alignment, never soundness
+			case <-b.ch:
+			case <-time.After(10 * time.Second):
+			}
+		})
+	})
+}
+
+// concurrentPost submits the authorizations at the same time. With fifo the
+// authorization file is replaced by a named pipe for the duration of the burst:
+// an append parks in open() until the harness opens the reading side, so every
+// request gets as far as the server's locking lets it before any append
+// completes. Afterwards the real file is restored with the drained bytes
+// appended (disk = what the server wrote).
+func (w *world) concurrentPost(auths []refenc.Auth, fifo bool) ([]int, bool) {
+	installConcHook()
+	path := filepath.Join(w.Dir, "equipment-authorizations.dat")
+	old := w.ReadFile("equipment-authorizations.dat")
+	if fifo {
+		if err := os.Remove(path); err != nil {
+			w.r.Inconc("fifo set-up: " + err.Error())
+			w.stop = true
+			return nil, false
+		}
+		if err := syscall.Mkfifo(path, 0644); err != nil {
+			os.WriteFile(path, old, 0644)
+			w.r.Inconc("fifo set-up: " + err.Error())
+			w.stop = true
+			return nil, false
+		}
+	}
+	b := &concBarrier{k: int32(len(auths)), ch: make(chan struct{})}
+	concArmed.Store(b)
+	sts := make([]int, len(auths))
+	errs := make([]error, len(auths))
+	var wg sync.WaitGroup
+	for i := range auths {
+		wg.Add(1)
+		go func(i int) {
+			defer wg.Done()
+			sts[i], _, errs[i] = w.Authorize(auths[i])
+		}(i)
+	}
+	done := make(chan struct{})
+	go func() { wg.Wait(); close(done) }()
+	select { // all K requests decoded and lined up
+	case <-b.ch:
+	case <-time.After(10 * time.Second):
+	case <-done:
+	}
+	time.Sleep(150 * time.Millisecond) // lets every request run as far as it can (widens the window only)
+	var drained []byte
+	if fifo {
+		fd, err := syscall.Open(path, syscall.O_RDONLY|syscall.O_NONBLOCK, 0)
+		if err != nil {
+			w.r.Inconc("fifo open: " + err.Error())
+			w.stop = true
+			return nil, false
+		}
+		buf := make([]byte, 1<<16)
+		finished := false
+		for {
+			n, _ := syscall.Read(fd, buf)
+			if n > 0 {
+				drained = append(drained, buf[:n]...)
+				continue
+			}
+			if finished {
+				break
+			}
+			select {
+			case <-done:
+				finished = true // one more pass to pick up what was written last
+			default:
+				time.Sleep(500 * time.Microsecond)
+			}
+		}
+		syscall.Close(fd)
+		os.Remove(path)
+		if err := os.WriteFile(path, append(append([]byte(nil), old...), drained...), 0644); err != nil {
+			w.r.Inconc("fifo restore: " + err.Error())
+			w.stop = true
+			return nil, false
+		}
+		w.r.Count("conc.fifo_rounds", 1)
+	} else {
+		<-done
+	}
+	concArmed.Store(nil)
+	for _, e := range errs {
+		if e != nil {
+			w.r.Inconc("concurrent authorize request failed: " + e.Error())
+			w.stop = true
+			return nil, false
+		}
+	}
+	return sts, true
+}
+
+// opConcurrentIdentical: K copies of one valid authorization for a fresh id are in
+// flight at once. Resubmitting an identical authorization changes nothing: the
+// device ends up authorized, not banned, and the file holds one record.
+func (w *world) opConcurrentIdentical(k int, fifo bool) *dev {
+	key := refenc.GenKey(w.rng)
+	a := w.mkAuth(w.freshID(), key.Pub, true)
+	auths := make([]refenc.Auth, k)
+	for i := range auths {
+		auths[i] = a
+	}
+	w.op("CONCURRENT %d identical new authorizations (fifo=%v) id=%d auth=%x", k, fifo, a.ID, a.Bytes())
+	sts, ok := w.concurrentPost(auths, fifo)
+	if !ok {
+		return nil
+	}
+	d := &dev{id: a.ID, key: key, auth: a, state: stAuthorized, slots: map[uint32]*slotM{}, reporting: true}
+	w.addDev(d)
+	w.file = append(w.file, a.Bytes()...)
+	what := fmt.Sprintf("%d concurrent identical authorizations for the fresh id %d (statuses %v)", k, a.ID, sts)
+	for _, st := range sts {
+		if st != 200 {
+			w.r.Violationf("concurrent-identical-authorizations:refused", w.replay(), "%s: an identical authorization must be accepted", what)
+			break
+		}
+	}
+	if snap := w.S.VerifSnapshot(false); snap.Bans[a.ID] {
+		w.r.Violationf("concurrent-identical-authorizations:device-banned", w.replay(), "%s: the device was banned by copies of its own authorization", what)
+	}
+	w.r.Count("conc.identical_rounds", 1)
+	w.r.Nontrivial(fmt.Sprintf("concurrent/identical/%d/%v%s", k, fifo, w.ctx(nil)))
+	w.observe(expect{kind: "new", id: a.ID, what: what, class: "concurrent-identical"})
+	return d
+}
+
+// opConcurrentConflicts: K different conflicting authorizations for one device at
+// once: the id ends up banned (never re-added) with one evidence record.
+func (w *world) opConcurrentConflicts(d *dev, k int, fifo bool) {
+	if d == nil || d.state != stAuthorized {
+		return
+	}
+	auths := make([]refenc.Auth, k)
+	for i := range auths {
+		a := d.auth
+		a.Debt += uint64(i + 1)
+		if i%2 == 1 {
+			a.Pub = refenc.GenKey(w.rng).Pub
+		}
+		auths[i] = a.Signed(w.GCA.Priv)
+	}
+	w.op("CONCURRENT %d different conflicting authorizations (fifo=%v) id=%d first=%x", k, fifo, d.id, auths[0].Bytes())
+	sts, ok := w.concurrentPost(auths, fifo)
+	if !ok {
+		return
+	}
+	what := fmt.Sprintf("%d concurrent different conflicts for device %d (statuses %v)", k, d.id, sts)
+	for _, st := range sts {
+		if st == 200 {
+			w.r.Violationf("conflict-answered-200", w.replay(), "%s: a conflicting authorization was answered 200", what)
+			break
+		}
+	}
+	// evidence: exactly one of the K records (whichever request won)
+	got := w.ReadFile("equipment-authorizations.dat")
+	want := append(append([]byte(nil), w.file...), auths[0].Bytes()...)
+	for _, a := range auths {
+		if c := append(append([]byte(nil), w.file...), a.Bytes()...); bytes.Equal(c, got) {
+			want = c
+		}
+	}
+	w.file = want
+	d.state = stBanned
+	d.slots = map[uint32]*slotM{}
+	w.r.Count("obs.ban", 1)
+	w.r.Count("conc.conflict_rounds", 1)
+	w.r.Nontrivial(fmt.Sprintf("concurrent/conflicts/%d/%v%s", k, fifo, w.ctx(d)))
+	w.observe(expect{kind: "ban", id: d.id, what: what, class: "concurrent-conflicts"})
+}
+
+func runConcurrent(b run.Batch, r *ev.Result, rng *rand.Rand, n int) bool {
+	w := newWorld(b, r, rng, 2000+n)
+	if w == nil {
+		return false
+	}
+	defer w.finish()
+	w.opNew(true)
+	w.opNew(true)
+	for i := 0; i < 3 && !w.stop; i++ {
+		w.opReport(stAuthorized)
+	}
+	var last *dev
+	for round := 0; round < 6 && !w.stop; round++ {
+		k := 2 + rng.Intn(7)
+		if round%3 == 2 {
+			k = 4 + rng.Intn(13)
+		}
+		fifo := round%3 != 1
+		switch round % 2 {
+		case 0:
+			last = w.opConcurrentIdentical(k, fifo)
+			if !w.stop && last != nil {
+				w.opDup()
+			}
+		default:
+			target := last
+			if target == nil || rng.Intn(2) == 0 {
+				target = w.pick(stAuthorized)
+			}
+			w.opConcurrentConflicts(target, k, fifo)
+			if !w.stop {
+				w.opBannedSubmit()
+			}
+		}
+		if !w.stop && (round%2 == 0 || rng.Intn(2) == 0) {
+			w.opRestart()
+		}
+		if !w.stop && rng.Intn(2) == 0 {
+			w.opReport(stAuthorized)
+		}
+	}
+	if !w.stop {
+		w.op("final full comparison")
+		w.observe(expect{kind: "none", what: "end of sequence", class: "final", last: true})
+	}
+	return !w.poisoned
+}
+
 // ---------------------------------------------------------------- child
 
 func child(b run.Batch, r *ev.Result) {
@@ -1582,6 +1982,8 @@ func child(b run.Batch, r *ev.Result) {
 		var ok bool
 		if b.Kind == "keyreuse" {
 			ok = runKeyReuse(b, r, rng, n)
+		} else if b.Kind == "conc" {
+			ok = runConcurrent(b, r, rng, n)
 		} else {
 			ok = runSequence(b, r, rng, n)
 		}
